@@ -58,6 +58,9 @@ def gen_ledger_text(rng, ntxn=None, with_errors=False, conversions=True):
             # every other quoted price carries a third decimal (market values with more digits than the display precision)
             quoted = prices[cur] + (Decimal('0.003') if k % 2 == 0 else 0)
             lines.append('%s price %s %s' % (date.isoformat(), cur, fmt_amount(quoted, 'USD')))
+            if k % 3 == 0:
+                # a second quotation of the same pair on the same day (opening and closing quotes)
+                lines.append('%s price %s %s' % (date.isoformat(), cur, fmt_amount(quoted + Decimal('0.25'), 'USD')))
             continue
         if kind == 'note':
             lines.append('%s note %s "a note %d"' % (date.isoformat(), rng.choice(ACCOUNTS), k))
